@@ -1,0 +1,80 @@
+//go:build verif
+
+package kafka
+
+// Hook for the group-balancer check (C14), second part: what the group leader puts
+// on the wire.  The real joinGroup (as leader: assignTopicPartitions, balancer) is
+// followed by the real syncGroup (makeSyncGroupRequestV0); the SyncGroup request the
+// coordinator receives is handed back undecoded.
+
+// VerifSyncAssignment is one entry of the SyncGroup request's GroupAssignments, in the
+// order it was encoded; MemberAssignments is the raw client-encoded assignment.
+type VerifSyncAssignment struct {
+	MemberID          string
+	MemberAssignments []byte
+}
+
+type verifLeaderSyncCoord struct {
+	coordinator
+	join  joinGroupResponse
+	read  func(topics ...string) ([]Partition, error)
+	syncs []syncGroupRequestV0
+}
+
+func (v *verifLeaderSyncCoord) joinGroup(joinGroupRequest) (joinGroupResponse, error) {
+	return v.join, nil
+}
+
+func (v *verifLeaderSyncCoord) readPartitions(topics ...string) ([]Partition, error) {
+	return v.read(topics...)
+}
+
+// syncGroup records the request and answers like a broker: with the assignment the
+// leader sent for the requesting member (empty when there is none).
+func (v *verifLeaderSyncCoord) syncGroup(req syncGroupRequestV0) (syncGroupResponseV0, error) {
+	v.syncs = append(v.syncs, req)
+	var res syncGroupResponseV0
+	for _, a := range req.GroupAssignments {
+		if a.MemberID == req.MemberID {
+			res.MemberAssignments = a.MemberAssignments
+		}
+	}
+	return res, nil
+}
+
+// VerifLeaderJoinSync runs ConsumerGroup.joinGroup as the leader (members[0]) of a group
+// whose JoinGroup response selected `protocol` and lists `members`, then
+// ConsumerGroup.syncGroup with the assignments joinGroup returned.  It returns those
+// assignments, the GroupAssignments of the SyncGroup request as the coordinator received
+// them, the SyncGroup request's member and generation ids, and the leader's own
+// assignment as decoded from the SyncGroup response.
+func VerifLeaderJoinSync(balancers []GroupBalancer, protocol string, members []GroupMember,
+	read func(topics ...string) ([]Partition, error)) (returned GroupMemberAssignments, wire []VerifSyncAssignment,
+	syncMember string, syncGeneration int32, own map[string][]int32, err error) {
+	cfg := ConsumerGroupConfig{ID: "verif-c14", GroupBalancers: balancers}
+	resp := joinGroupResponse{GenerationID: 7, GroupProtocol: protocol}
+	for i, m := range members {
+		if i == 0 {
+			resp.LeaderID = m.ID
+			resp.MemberID = m.ID
+			cfg.Topics = m.Topics
+		}
+		meta := groupMetadata{Version: 1, Topics: m.Topics, UserData: m.UserData}.bytes()
+		resp.Members = append(resp.Members, joinGroupResponseMember{MemberID: m.ID, MemberMetadata: meta})
+	}
+	cg := &ConsumerGroup{config: cfg}
+	conn := &verifLeaderSyncCoord{join: resp, read: read}
+	memberID, generationID, assignments, err := cg.joinGroup(conn, "")
+	if err != nil {
+		return nil, nil, "", 0, nil, err
+	}
+	own, err = cg.syncGroup(conn, memberID, generationID, assignments)
+	if len(conn.syncs) == 1 {
+		req := conn.syncs[0]
+		syncMember, syncGeneration = req.MemberID, req.GenerationID
+		for _, a := range req.GroupAssignments {
+			wire = append(wire, VerifSyncAssignment{MemberID: a.MemberID, MemberAssignments: a.MemberAssignments})
+		}
+	}
+	return assignments, wire, syncMember, syncGeneration, own, err
+}
